@@ -400,5 +400,16 @@ def r07_9(ctx):
     delegate(ctx, c13.r13_1b, lambda c: True)
 
 
+def r07_10(ctx):
+    """R07.10 one value, one spelling per format: (a) every hex-prefix test of an emitter knows 0x and 0X (C06 R06.10c:
+    the header would write 0x0XAB where CMake has 0xab); (b) string values - of options and of their aliases - are quoted
+    through the escape chain in every format that quotes (C02 R02.2); (c) auto.conf is rewritten by every sync, after the
+    trigger files (C12 R12.1): a sync that skips the write leaves auto.conf behind the other four outputs."""
+    from . import c02, c06, c12
+    from .common import delegate
+    delegate(ctx, c06.r06_10, lambda c: "hex prefix test" in c)
+    delegate(ctx, c02.r02_2, lambda c: "quoted through _escape" in c)
+    delegate(ctx, c12.r12_1, lambda c: "auto.conf" in c)
+
 def rules():
-    return [("R07.9", r07_9, 6), ("R07.1", r07_1, 13), ("R07.6", r07_6, 8), ("R07.2", r07_2, 3), ("R07.3", r07_3, 4), ("R07.5", r07_5, 3), ("R07.7", r07_7, 4), ("R07.8", r07_8, 2)]
+    return [("R07.10", r07_10, 6), ("R07.9", r07_9, 6), ("R07.1", r07_1, 13), ("R07.6", r07_6, 8), ("R07.2", r07_2, 3), ("R07.3", r07_3, 4), ("R07.5", r07_5, 3), ("R07.7", r07_7, 4), ("R07.8", r07_8, 2)]
